@@ -56,6 +56,14 @@ func teardownKind() kindDef {
 		paths: func(string, string) []string {
 			return []string{"PADT", "ADMIN", "IDLE", "DISCONNECT", "SHUTDOWN", "RESTART-PADT", "RESTART-ADMIN", "RESTART-SHUTDOWN"}
 		},
+		// the RADIUS Disconnect naming the session by Framed-IP-Address / Calling-Station-Id / combinations (see
+		// disconnect_test.go); by address only once the session has one. quick: configuration "radius"; thorough: all.
+		forms: func(cfg, prefix string, thorough bool) []string {
+			if !thorough && cfg != "radius" {
+				return nil
+			}
+			return discForms(prefix == "ADDR" || prefix == "EST", thorough)
+		},
 		run: runTeardown,
 	}
 }
@@ -74,6 +82,7 @@ type tdWorld struct {
 	pool       *pppoe.IPPool
 	td         *pppoe.SessionTeardown
 	coa        *bngradius.CoAProcessor
+	coaSrv     *bngradius.CoAServer // the listener in front of coa (Disconnect-Request forms arrive as attribute bytes)
 	natM       *nat.Manager
 	qosM       *qos.Manager
 	rs         *radiusScript
@@ -139,12 +148,29 @@ func newTDWorld(e *kenv, k kase, padtRetries int) *tdWorld {
 		}
 		return nil
 	}
-	w.coa.SetSessionLookup(func(id string) (*bngradius.SessionInfo, bool) {
-		if s := find(id); s != nil {
-			return &bngradius.SessionInfo{SessionID: s.SessionID, Username: s.Username, MAC: s.ClientMAC, FramedIP: s.ClientIP}, true
+	info := func(s *pppoe.Session) (*bngradius.SessionInfo, bool) {
+		if s == nil {
+			return nil, false
+		}
+		return &bngradius.SessionInfo{SessionID: s.SessionID, Username: s.Username, MAC: s.ClientMAC, FramedIP: s.ClientIP}, true
+	}
+	w.coa.SetSessionLookup(func(id string) (*bngradius.SessionInfo, bool) { return info(find(id)) })
+	w.coa.SetSessionLookupByIP(func(ip net.IP) (*bngradius.SessionInfo, bool) {
+		for _, s := range w.sm.GetAllSessions() {
+			if s.ClientIP != nil && s.ClientIP.Equal(ip) {
+				return info(s)
+			}
 		}
 		return nil, false
 	})
+	w.coa.SetSessionLookupByMAC(func(cs string) (*bngradius.SessionInfo, bool) {
+		mac, err := net.ParseMAC(cs)
+		if err != nil {
+			return nil, false
+		}
+		return info(w.sm.GetSessionByMAC(mac))
+	})
+	w.coaSrv = coaFront(w.coa)
 	w.coa.SetSessionTerminator(func(ctx context.Context, id string, reason uint32) error {
 		if s := find(id); s != nil {
 			return w.td.TerminateSession(s, pppoe.TerminateCause(reason), "")
@@ -297,6 +323,12 @@ func (w *tdWorld) terminate(path string) {
 	case "SHUTDOWN":
 		w.td.TerminateAll(pppoe.TerminateCauseNASReboot, "shutdown")
 	default:
+		if isDiscForm(path) {
+			for _, a := range w.vic {
+				sendDisconnect(w.coaSrv, path, a.s.SessionID, a.name, a.addr, a.mac)
+			}
+			return
+		}
 		panic("unknown termination path " + path)
 	}
 }
